@@ -32,7 +32,11 @@ class Executor:
         self.p = subprocess.Popen([BIN], stdin=subprocess.PIPE, stdout=subprocess.PIPE, text=True, bufsize=1,
                                   env=dict(os.environ, HPKE_EXEC_FLUSH="1"))
         self.n = 0
-        self.log = []          # (cmd, event) pairs of this session, for replay files
+        # every command of this process, on disk: lets a mismatch that depends on the process's HISTORY be re-created
+        import tempfile
+        self.cmdlog = tempfile.NamedTemporaryFile("w+", prefix="hpke-exec-log-", suffix=".ndjson", delete=True)
+        self.logged_bytes = 0
+        self.log_complete = True
 
     def call(self, cmd):
         line = json.dumps(cmd, separators=(",", ":"))
@@ -47,8 +51,21 @@ class Executor:
             raise ToolError("executor died (rc=%s) on command %s" % (rc, line[:500]))
         ev = json.loads(out)
         self.n += 1
-        self.log.append((cmd, ev))
+        if self.log_complete:
+            if self.logged_bytes < 300 * 1024 * 1024:
+                self.cmdlog.write(line + "\n")
+                self.logged_bytes += len(line) + 1
+            else:
+                self.log_complete = False
         return ev
+
+    def history(self):
+        """all commands issued so far (None if the log was cut off)"""
+        if not self.log_complete:
+            return None
+        self.cmdlog.flush()
+        with open(self.cmdlog.name) as f:
+            return [json.loads(l) for l in f if l.strip()]
 
     def close(self):
         try:
@@ -56,6 +73,10 @@ class Executor:
             self.p.wait(timeout=10)
         except Exception:
             self.p.kill()
+        try:
+            self.cmdlog.close()
+        except Exception:
+            pass
 
     def __enter__(self):
         return self
